@@ -25,3 +25,60 @@ def validate(rep, trace_path, module, cfg, workdir, timeout=900, workers=1, env_
         tag, l = t[0], t[1]
         bad.setdefault(l, []).append(tag)
     return lines, bad
+
+
+def run_table(rep, pid, cmd, gen_args, module, cfg, classify, replay_in=None, sample_keys=None, distinct_key=None,
+              timeout=900):
+    """Generate (or recompute, for a replay) lines with harness subcommand `cmd`, validate with TLC, turn
+    bad lines into known findings / violations.  classify(line, tags) -> (signature dict, text)."""
+    wd = vlib.scratch_dir(pid.lower())
+    try:
+        trace = os.path.join(wd, cmd + ".ndjson")
+        if replay_in is None:
+            vlib.run_harness([cmd, "-out", trace] + gen_args, cwd=wd)
+        else:
+            vlib.run_harness([cmd, "-out", trace, "-replay", replay_in], cwd=wd)
+        lines, bad = validate(rep, trace, module, cfg, wd, timeout=timeout)
+        for e in lines[:3]:
+            rep.sample({k: e[k] for k in (sample_keys or e.keys()) if k in e})
+        for e in lines:
+            rep.distinct.add(json.dumps(distinct_key(e) if distinct_key else e, sort_keys=True))
+        seen = set()
+        for l in sorted(bad):
+            line = lines[l - 1]
+            sig, text = classify(line, sorted(set(bad[l])))
+            k = vlib.known_match(pid, sig)
+            if k:
+                if k["id"] not in seen:
+                    seen.add(k["id"])
+                    rep.known.append("%s: %s" % (k["id"], k["what"]))
+                continue
+            key = json.dumps(sig, sort_keys=True)
+            if key in seen:
+                continue
+            seen.add(key)
+            if rep.replay_of:
+                path = rep.replay_of
+            else:
+                path = vlib.save_replay(pid, "%s_line%d_seed%d" % (cmd, l, rep.seed),
+                                        {"property": pid, "kind": cmd + "-line", "line": line, "failed": sig})
+            rep.violation(path, text)
+        rep.extra.setdefault("bad_lines", 0)
+        rep.extra["bad_lines"] += len(bad)
+        return lines, bad
+    finally:
+        shutil.rmtree(wd, ignore_errors=True)
+
+
+def replay_line(payload, wd):
+    src = os.path.join(wd, "in.ndjson")
+    with open(src, "w") as f:
+        f.write(json.dumps(payload["line"]) + "\n")
+    return src
+
+
+def big(l):
+    v = 0
+    for d in l:
+        v = v * 32768 + d
+    return v
